@@ -11,6 +11,7 @@ func init() {
 	extraFamilies = []family{
 		{"F3-statement-lists", genStatements},
 		{"F5-declarations", genDeclarations},
+		{"F5b-long-declaration-lists", genLongDeclarations},
 		{"F6-adjacency-asi", genAdjacency},
 		{"F7-literals", genLiterals},
 		{"F8-functions-classes-builtins", genFunctions},
@@ -90,6 +91,45 @@ func genDeclarations(c *core.Check, emit func(Program) bool) {
 		}
 		if !emit(Program{fn("var a=h0();(function(){" + body + "})();h1(typeof x,typeof y)"), "fn", vec}) {
 			return
+		}
+	}
+}
+
+// long declaration lists: n separate var statements whose initialisers call the host in order and
+// read the previous variable, with uninitialised vars before, between and after them. Merging the
+// statements must keep the initialisers in source order for every n (list-length thresholds of
+// sorting or copying code are inside the range).
+func genLongDeclarations(c *core.Check, emit func(Program) bool) {
+	for n := 1; n <= c.Pick(24, 40); n++ {
+		for pos := 0; pos < 4; pos++ { // where the uninitialised declarations sit: nowhere, first, middle, last
+			for _, kw := range []string{"var", "let"} {
+				var b strings.Builder
+				b.WriteString("var a=h0();")
+				if pos == 1 {
+					b.WriteString(kw + " u,w;")
+				}
+				for i := 0; i < n; i++ {
+					if pos == 2 && i == n/2 {
+						b.WriteString(kw + " u;" + kw + " w;")
+					}
+					prev := "a"
+					if i > 0 {
+						prev = fmt.Sprintf("v%d", i-1)
+					}
+					fmt.Fprintf(&b, "%s v%d=h1(%d,%s);", kw, i, i, prev)
+				}
+				if pos == 3 {
+					b.WriteString(kw + " u;" + kw + " w;")
+				}
+				if pos == 0 {
+					b.WriteString(kw + " u=0,w=0;")
+				}
+				// u is assigned under a condition only, so its declarator stays without an initialiser
+				fmt.Fprintf(&b, "if(a===1){u=v%d}for(w in {k:1});return [u,w]", n-1)
+				if !emit(Program{fn(b.String()), "fn", [][]string{{"1"}, {"obj"}}}) {
+					return
+				}
+			}
 		}
 	}
 }
@@ -211,6 +251,9 @@ func genFunctions(c *core.Check, emit func(Program) bool) {
 	pre := "var a=h0(),b=h0();"
 	progs := []string{
 		// parameters: defaults, rest, patterns, unused trailing parameters, arguments
+		// a variable captured three and four function levels below its declaration, used on the way down
+		"var total=10;function l1(){total++;return function(){total++;return function(s){var local=s*2;return total+local}}}return l1()()(3)",
+		"var t=a;return (function(){t=t+'x';return ()=>{h1(t);return function(q){var t2=q;return (z=>[t,t2,z])(b)}}})()()(1)",
 		"function f(x,y){return x}return f(a,b)", "function f(x,y){return arguments[1]}return f(a,b)", "function f(x,y,z){return [x,arguments.length]}return f(a,b)", "function f(x=a,y=x){return [x,y]}return f(void 0,b)", "function f(...r){return r}return f(a,b)", "function f(x,...r){return [x,r]}return f(a,b)",
 		"function f({p,q=1}={}){return [p,q]}return f(a)", "function f([x,y=2]=[]){return [x,y]}return f(b)", "function f(x,y){y=2;return arguments[1]}return f(a,b)", "function f(x,y){'use strict';y=2;return arguments[1]}return f(a,b)", "function f(x){x=1;return x}return [f(a),a]", "function f(x){var x;return x}return f(a)", "function f(x){var x=2;return x}return f(a)", "function f(x,x2){return x2}return f(a,b)", "var f=function g(){return typeof g};return f()", "var f=function g(n){return n?g(n-1)+1:0};return f(3)",
 		"function f(){return this}return f.call(a)===a", "function f(){'use strict';return this}return f.call(a)", "var o={f(){return this===o}};return o.f()", "var o={f:()=>this};return o.f()===this", "return (function(){return (()=>arguments[0])()})(a)", "return (function(){return new.target})()", "function C(){return new.target===C}return [new C instanceof C,C()]",
